@@ -87,6 +87,12 @@ pub fn adversarial() -> Vec<Case> {
     load_sep("adversarial.txt", "adv")
 }
 
+/// Reproducers of *open* findings: part of every base workload (they print KNOWN-FINDING lines),
+/// but never used as bases for mutation (mutating a failing input only yields more of the same).
+pub fn repro_open() -> Vec<Case> {
+    load_sep("repro_open.txt", "repro")
+}
+
 /// Non-well-formed / degenerate inputs (JSON array of strings).
 pub fn hostile() -> Vec<Case> {
     let path = corpus_dir().join("hostile.json");
